@@ -65,6 +65,9 @@ func runC10(c *eng.Ctx) {
 	c.Rule("R10.8", "K1")
 	ruleTimestampPositionsFollowTheDirection(c)
 	ruleReverseStartIsNotClamped(c)
+	ruleResolvedPositionIsTheOneReturned(c)
+	c.Rule("R10.2", "K1")
+	ruleReverseReaderIsNotCreatedBelowZero(c)
 	c.Rule("R03.4", "K1")
 	ruleReplacedWatermarkSegmentReinitialises(c)
 	c.Rule("R03.7", "K1")
